@@ -265,6 +265,15 @@ func scribble(c *CfgCore) {
 			n.S = poisonS
 		}
 	}
+	if c.PWhen != nil {
+		*c.PWhen = c.PWhen.Add(666 * time.Hour)
+	}
+	if c.TU.M != nil {
+		c.TU.M[poisonS] = poisonI
+	}
+	for i := range c.TU.L {
+		c.TU.L[i] = poisonS
+	}
 	for _, m := range c.MA {
 		if m != nil {
 			m[poisonS] = poisonI
